@@ -106,6 +106,18 @@ func runC08(s *core.Sim, tier string) RunInfo {
 			m.Append(from, to)
 			continue
 		}
+		// sometimes headers are appended right before the DeleteRange call, by the same
+		// caller and without waiting: Append has returned, but the headers may still sit
+		// in the store's write queue when DeleteRange validates its range
+		var pre []*H
+		if !m.Empty() && s.Tape.Coin("append-just-before", 1, 4) {
+			a := m.Head + 1
+			b := a + uint64(s.Tape.Draw("pre-n", 4))
+			pre = w.Ch.Range(a, b)
+			m.Append(a, b)
+			hist = append(hist, fmt.Sprintf("append %d..%d immediately followed by:", a, b))
+			s.Probe("delete-right-after-append")
+		}
 		var from, to uint64
 		if s.Tape.Coin("grid", 1, 2) {
 			from, to = gridRange(s, m)
@@ -137,7 +149,25 @@ func runC08(s *core.Sim, tier string) RunInfo {
 		}
 		hist = append(hist, fmt.Sprintf("delete [%d,%d) accept=%v unflushed=%d deadline=%v", from, to, ok, unfl, timeout))
 		var err error
-		if timeout > 0 || (injectFaults && ok) {
+		if pre != nil {
+			w.do(fmt.Sprintf("append+delete [%d,%d)", from, to), func() {
+				if aerr := w.St.Append(ctxBG(), pre...); aerr != nil {
+					s.Violate("append-error", nil, "Append: %v", aerr)
+					return
+				}
+				ctx := ctxBG()
+				if timeout > 0 {
+					var cancel context.CancelFunc
+					ctx, cancel = context.WithTimeout(ctx, timeout)
+					defer cancel()
+				}
+				err = w.St.DeleteRange(ctx, from, to)
+			})
+			if err != nil && timeout > 0 {
+				faulted = true
+				s.Fault("deadline-inside-delete")
+			}
+		} else if timeout > 0 || (injectFaults && ok) {
 			w.do(fmt.Sprintf("delete [%d,%d) deadline %v", from, to, timeout), func() {
 				ctx, cancel := context.WithTimeout(ctxBG(), timeout)
 				defer cancel()
@@ -151,6 +181,14 @@ func runC08(s *core.Sim, tier string) RunInfo {
 			err = w.Delete(from, to)
 		}
 		w.Disk.Latency = nil
+		if pre != nil || injectFaults {
+			// the deadline may have ended the call while appended headers were still queued or
+			// being flushed (1ms per datastore op): let the store finish before looking at it
+			if serr := w.Sync(); serr != nil {
+				s.Violate("sync-error", nil, "Sync: %v", serr)
+				break
+			}
+		}
 		dels++
 		if s.Failed() {
 			break
@@ -162,7 +200,7 @@ func runC08(s *core.Sim, tier string) RunInfo {
 				break
 			}
 			s.Probe("delete-rejected-" + classifyRange(beforeModel, from, to))
-			if after := w.Disk.Snapshot(); !reflect.DeepEqual(before, after) {
+			if after := w.Disk.Snapshot(); pre == nil && !reflect.DeepEqual(before, after) {
 				s.Violate("rejected-delete-had-effect", nil, "DeleteRange(%d,%d) was rejected (%v) but changed the datastore: %s", from, to, err, diffSnap(before, after))
 			}
 			w.checkStore(m, fmt.Sprintf("after rejected delete [%d,%d)", from, to))
